@@ -276,4 +276,77 @@ theorem field_writes_own_position (P : Profile) (dm : DefMsg) (known : Bool) (fd
       m' = some { msg with vals := setAt msg.vals pf.sindex v } :=
   applyField_shape P dm known fd raw msg ts m' ts' h
 
+/-! ### time and coordinate fields defined narrower than the profile type -/
+
+/-- A time or coordinate field defined one or two bytes wide with a signed base type is widened to
+    the profile's four bytes by sign extension of *its own* most significant byte: the four-byte
+    value read back is the two's-complement value of the narrow field, in either byte order —
+    whatever was in the scratch buffer before. -/
+theorem narrow_signed_widens (arch : Endian) (btype : Nat) (hs : Base.signed btype = true) (hi : Base.integer btype = true) :
+    (∀ x : UInt8, toSigned 32 (arch.dec ((padTmp arch btype [x] 1 4).take 4)) = toSigned 8 (wireNat arch [x])) ∧
+    (∀ x y : UInt8, toSigned 32 (arch.dec ((padTmp arch btype [x, y] 2 4).take 4)) = toSigned 16 (wireNat arch [x, y])) := by
+  have e255 : (255 : UInt8).toNat = 255 := rfl
+  have e0 : (0 : UInt8).toNat = 0 := rfl
+  constructor
+  · intro x
+    have hx := x.toNat_lt
+    cases arch <;> simp only [padTmp, wireNat, Endian.dec, hs, hi, List.getLastD, List.headD]
+    · by_cases h : x.toNat ≥ 128
+      · simp [h, List.replicate, leNat, toSigned, e255]; omega
+      · simp [h, List.replicate, leNat, toSigned, e0]; omega
+    · by_cases h : x.toNat ≥ 128
+      · simp [h, List.replicate, beNat, toSigned, e255]; omega
+      · simp [h, List.replicate, beNat, toSigned, e0]; omega
+  · intro x y
+    have hx := x.toNat_lt
+    have hy := y.toNat_lt
+    cases arch <;> simp only [padTmp, wireNat, Endian.dec, hs, hi, List.getLastD, List.headD]
+    · by_cases h : y.toNat ≥ 128
+      · simp [h, List.replicate, leNat, toSigned, e255]; omega
+      · simp [h, List.replicate, leNat, toSigned, e0]; omega
+    · by_cases h : x.toNat ≥ 128
+      · simp [h, List.replicate, beNat, toSigned, e255]; omega
+      · simp [h, List.replicate, beNat, toSigned, e0]; omega
+
+
+/-- … and so a longitude defined as one or two signed bytes decodes to the two's-complement value of
+    those bytes (big- or little-endian), not to something that depends on the bytes read before it. -/
+theorem narrow_longitude_denotes (P : Profile) (dm : DefMsg) (fd : FieldDef) (pf : PField) (pm : PMsg) (msg : Msg)
+    (ts : TsRef)
+    (hf : P.getField dm.global fd.num = some pf) (hpm : P.msg? dm.global = some pm)
+    (hb : tcBase pf.tcode = Base.sint32) (ha : tcArray pf.tcode = false) (hk : tcKind pf.tcode = .lng)
+    (hl : pm.layout[pf.sindex]? = some .lng)
+    (hs : Base.signed fd.btype = true) (hi : Base.integer fd.btype = true) :
+    (∀ x : UInt8, fd.size = 1 →
+      applyField P dm true fd [x] (some msg) ts =
+        .ok (some { msg with vals := setAt msg.vals pf.sindex (.lng (toSigned 8 (wireNat dm.arch [x]))) }) ts) ∧
+    (∀ x y : UInt8, fd.size = 2 →
+      applyField P dm true fd [x, y] (some msg) ts =
+        .ok (some { msg with vals := setAt msg.vals pf.sindex (.lng (toSigned 16 (wireNat dm.arch [x, y]))) }) ts) := by
+  obtain ⟨h1, h2⟩ := narrow_signed_widens dm.arch fd.btype hs hi
+  have hsz : Base.size Base.sint32 = 4 := by decide
+  have hne : Base.sint32 ≠ Base.string := by decide
+  have hc : (Base.sint32 ≠ Base.string ∧ (!false) = true ∧ Kind.lng ≠ Kind.native) = True := by
+    simp only [eq_iff_iff, iff_true]; exact ⟨hne, rfl, by decide⟩
+  have l1 : ∀ x : UInt8, (padTmp dm.arch fd.btype [x] 1 4).length = 4 := by
+    intro x; unfold padTmp; cases dm.arch <;> simp
+  have l2 : ∀ x y : UInt8, (padTmp dm.arch fd.btype [x, y] 2 4).length = 4 := by
+    intro x y; unfold padTmp; cases dm.arch <;> simp
+  constructor
+  · intro x hsize
+    unfold applyField
+    simp only [hf, hpm, hb, ha, hk, hl, hsize, hsz, hc, if_true, l1, h1]
+    simp
+  · intro x y hsize
+    unfold applyField
+    simp only [hf, hpm, hb, ha, hk, hl, hsize, hsz, hc, if_true, l2, h2]
+    simp
+
+/-- non-vacuity on the regenerated profile: record.position_long (message 20, field 1) is such a field -/
+example : (match Gen.profile.getField 20 1, Gen.profile.msg? 20 with
+    | some pf, some pm => (tcBase pf.tcode == Base.sint32) && !tcArray pf.tcode && (tcKind pf.tcode == .lng) &&
+        (pm.layout[pf.sindex]? == some .lng) && Base.signed Base.sint16 && Base.integer Base.sint16
+    | _, _ => false) = true := by
+  decide +kernel
+
 end Fit.Props.C02
